@@ -184,9 +184,32 @@ func (tdsChan *Channel) Close() error {
 		// TODO process ack packet
 	}
 
+	// The reader may be blocked handing a package to the full package
+	// queue while holding the read lock - keep the queue moving until
+	// the lock is acquired, otherwise Close would never return.
+	stopDrain, drainStopped := make(chan struct{}), make(chan struct{})
+	var drained []Package
+	go func(packageCh chan Package) {
+		defer close(drainStopped)
+		for {
+			select {
+			case <-stopDrain:
+				return
+			case pkg := <-packageCh:
+				drained = append(drained, pkg)
+			}
+		}
+	}(tdsChan.packageCh)
+
 	// Lock the channel and store the closed indicator.
 	tdsChan.Lock()
 	defer tdsChan.Unlock()
+
+	close(stopDrain)
+	<-drainStopped
+	for _, pkg := range drained {
+		me = multierror.Append(me, fmt.Errorf("package still queued: %v", pkg))
+	}
 
 	tdsChan.closed = true
 
